@@ -74,9 +74,14 @@ def reference(d, state, params):
     for r in d["reactions"]:
         env = dict(pr); env.update(st_); env.update(r["locals"])
         v = ref.eval_tree(r["tree"], env)
+        # net stoichiometry first (integers, exact): a species on both sides of a fast reaction must not leave the
+        # rounding error of (+n v - n v) in the reference value
+        net = {}
         for sid, n in r["reactants"]:
-            deriv[sid] -= n * v
+            net[sid] = net.get(sid, 0) - n
         for sid, n in r["products"]:
+            net[sid] = net.get(sid, 0) + n
+        for sid, n in net.items():
             deriv[sid] += n * v
     for rl in d["rules"]:
         if rl["kind"] == "rate":
